@@ -6,6 +6,7 @@ pub mod c10;
 pub mod c11;
 pub mod c12;
 pub mod c13;
+pub mod c14;
 pub mod c15;
 pub mod c18;
 pub mod explore;
@@ -95,6 +96,15 @@ pub fn run_property(id: &str, opts: &Opts) -> i32 {
             A_PLAN,
             Value::Null,
         ),
+        "C14" => (
+            vec![run_part::<c14::C14>(opts)],
+            &[
+                "statistical: every individual test is judged at alpha = 1e-9 and must fail again on a second independent seed, so a false alarm is practically impossible; biases below about 1% (at N = 2e5) are invisible",
+                "SO3 cones of radius < 0.3 are not sampled (cost of the rejection sampler)",
+                "asymptotic Kolmogorov / chi-square tail formulas",
+            ],
+            Value::Null,
+        ),
         "C15" => (
             vec![run_part::<c15::C15Explore>(opts), run_part::<c15::C15Random>(opts), run_part::<c15::C15Chunked>(opts)],
             A_PLAN,
@@ -155,6 +165,7 @@ pub fn replay(opts: &Opts, doc: &Value) -> i32 {
     try_part!(c11::C11);
     try_part!(c12::C12);
     try_part!(c13::C13);
+    try_part!(c14::C14);
     try_part!(c18::C18Scripted);
     try_part!(c18::C18Random);
     try_part!(c15::C15Explore);
